@@ -1038,14 +1038,9 @@ impl<T: PackedInt> IntVec<T> {
             return CompressionStrategy::MinMax { min_val, bit_width };
         }
 
-        // For slightly larger small datasets, use optimized block compression
-        // Use 64 blockUnits (not 128) for better small dataset performance
-        CompressionStrategy::BlockBased {
-            block_size: BlockSize::Block64,  // 🚀 64 units for small data
-            offset_width: bit_width.min(8),  // Limit offset width for efficiency
-            sample_width: 4,                 // Fixed small sample width
-            is_sorted,                       // Use actual sorted detection
-        }
+        // For slightly larger small datasets, use block compression with the
+        // widths the data needs (fixed widths of 8/4 bits truncated the values)
+        Self::analyze_block_based(values, is_sorted)
     }
 
     /// 🚀 BULK-OPTIMIZED: Fast strategy analysis for bulk construction
@@ -1383,7 +1378,6 @@ impl<T: PackedInt> IntVec<T> {
 
         // Pre-allocate index with golden ratio growth
         // SAFETY: samples has num_blocks elements (pushed in the loop above), num_blocks >= 1
-        let sample_min = *samples.iter().min().unwrap();
         let index_bits = num_blocks * sample_width as usize;
         let index_bytes = (index_bits + 7) / 8;
         let index_capacity = ((index_bytes * 103) / 64).max(index_bytes);
@@ -1393,7 +1387,8 @@ impl<T: PackedInt> IntVec<T> {
         let mut bit_offset = 0;
         
         for &sample in &samples {
-            let offset_sample = sample - sample_min;
+            // stored as they are: get_block_based returns sample + offset
+            let offset_sample = sample;
             self.write_bits_bulk(&mut index_data, offset_sample, bit_offset, sample_width)?;
             bit_offset += sample_width as usize;
         }
@@ -1691,9 +1686,9 @@ impl<T: PackedInt> IntVec<T> {
         }
 
         // SAFETY: samples has num_blocks elements (len >= 64, so num_blocks >= 1)
-        let sample_min = *samples.iter().min().unwrap();
+        // get_block_based adds sample + offset: samples are stored as they are
         let sample_max = *samples.iter().max().unwrap();
-        let sample_width = BitOps::compute_bit_width(sample_max - sample_min);
+        let sample_width = BitOps::compute_bit_width(sample_max);
 
         // Analyze offset values within blocks
         let mut max_offset = 0u64;
@@ -1855,7 +1850,6 @@ impl<T: PackedInt> IntVec<T> {
 
         // Compress samples
         // SAFETY: samples has num_blocks elements (pushed in the loop above), num_blocks >= 1
-        let sample_min = *samples.iter().min().unwrap();
         let index_bits = num_blocks * sample_width as usize;
         let index_bytes = (index_bits + 7) / 8;
         let index_aligned = (index_bytes + 15) & !15;
@@ -1864,7 +1858,8 @@ impl<T: PackedInt> IntVec<T> {
         let mut bit_offset = 0;
         
         for &sample in &samples {
-            let offset_sample = sample - sample_min;
+            // stored as they are: get_block_based returns sample + offset
+            let offset_sample = sample;
             self.write_bits(&mut index_data, offset_sample, bit_offset, sample_width)?;
             bit_offset += sample_width as usize;
         }
